@@ -542,10 +542,12 @@ Theorem C12_e2e_read_arc : forall mc md S p loc f c fl S',
 Proof. exact e2e_read_arc. Qed.
 Theorem C12_e2e_read_ctpk : forall mc md S p loc f texs S',
   write_file mc S p f loc = (S', FOk tt) -> wfb f -> lenN f < 2 ^ 24 -> TexFormat.conforms_ctpk f texs ->
+  Forall TexCommon.f32_exact texs ->       (* the reader's f32 payload-size request is exact (see Properties/C20.v) *)
   read_ctpk_textures md S' p loc = lift_parse (as_map (TexCommon.decode_all (TexCommon.decode_tex md) texs)).
 Proof. exact e2e_read_ctpk. Qed.
 Theorem C12_e2e_read_bch : forall mc md S p loc f texs S',
   write_file mc S p f loc = (S', FOk tt) -> wfb f -> lenN f < 2 ^ 24 -> TexFormat.conforms_bch f texs ->
+  Forall TexCommon.f32_exact texs ->
   read_bch_textures md S' p loc = lift_parse (as_map (TexCommon.decode_all (TexCommon.decode_tex md) texs)).
 Proof. exact e2e_read_bch. Qed.
 Theorem C12_e2e_read_cgfx : forall mc md S p loc f texs S',
@@ -559,9 +561,9 @@ Proof. exact e2e_read_tpl. Qed.
 (* on C19's supported textures: the packed textures decoded, by name (bch / ctpk / cgfx) or in order (tpl) *)
 Theorem C12_e2e_read_textures_supported : forall mc md S p loc f texs S',
   write_file mc S p f loc = (S', FOk tt) -> wfb f -> lenN f < 2 ^ 24 ->
-  (TexFormat.conforms_ctpk f texs -> Forall TexDecode.supported3ds texs ->
+  (TexFormat.conforms_ctpk f texs -> Forall TexDecode.supported3ds_f32 texs ->
      read_ctpk_textures md S' p loc = FOk (TexMap (tex_map (map TexDecode.decoded texs)))) /\
-  (TexFormat.conforms_bch f texs -> Forall TexDecode.supported3ds texs ->
+  (TexFormat.conforms_bch f texs -> Forall TexDecode.supported3ds_f32 texs ->
      read_bch_textures md S' p loc = FOk (TexMap (tex_map (map TexDecode.decoded texs)))) /\
   (TexFormat.conforms_cgfx f texs -> Forall TexDecode.supported3ds texs ->
      read_cgfx_textures md S' p loc = FOk (TexMap (tex_map (map TexDecode.decoded texs)))) /\
